@@ -291,14 +291,15 @@ def split_radix(ctx, drv, quick):
     for T in (2, 3, 8):
         bad = [a.split(" => ")[0][:120] for a, b in zip(ref, outs[T]) if a != b]
         ctx.ob(f"split:threads={T}:same-output-as-1-thread", len(ref) == len(outs[T]) and not bad, f"{len(bad)} differing lines, first: {bad[:1]}")
-    sizes = sorted({veclen(l.split(" => ")[0].split(" ")[2]).bit_length() - 1 for l in ref if l.startswith("split_")})
+    sizes = sorted({veclen(l.split(" => ")[0].split(" ")[2]).bit_length() - 1 for l in ref if l.startswith("split_eval ") or l.startswith("split_interp ")})
     ctx.ob("coverage:split:sizes-2^10..", set(range(10, maxlog + 1)) <= set(sizes), f"sizes {sizes}")
     par_correspondence(ctx, "split-radix:concurrent-build", ref, drv, jobs=10, timeout=900,
                        weight=lambda c: len(c) * (8 if " f128 " in c[:20] else 1))
     ctx.notes["split_radix"] = {"pool_sizes": [1, 2, 3, 8], "log2_sizes": sizes, "cases": len(ref),
                                 "ops": sorted({l.split(" ")[0] for l in ref}), "wall_s": round(__import__("time").time() - t0, 1),
-                                "what": "concurrent build: evaluate_poly/interpolate_poly (split_radix_fft + permute) vs extracted Model/FFTSplit.v; "
-                                        "evaluate_poly_with_offset and RowMatrix::evaluate_polys_over (segments.rs duplicate, row FFT sizes 8/16/32) vs the serial model"}
+                                "what": "concurrent build vs the extracted Model/FFTSplit.v: evaluate_poly, interpolate_poly, evaluate_poly_with_offset, "
+                                        "interpolate_poly_with_offset (split_radix_fft + permute + scalings) and RowMatrix::evaluate_polys_over "
+                                        "(segment_new_concurrent: split_radix_fft on [[B;N]] rows, row FFT sizes 8/16/32, full and partial segments)"}
 
 
 def run(ctx):
@@ -338,7 +339,9 @@ def run(ctx):
         "no_panic": "theorem (every k): no slice access of fft_in_place/permute out of range under the entry-point asserts; checked entry points = "
                     "entry points on all inputs; exact panic domains (_total_iff); the driver also runs the checked model on every case of work size <= 256",
         "split_radix": "theorem (every n = 4^k, 2*4^k): split_radix_fft of the concurrent build (swap-loop transpositions, strided row FFTs, outer "
-                       "twiddles) = fft_in_place; checked every run: extracted model vs the --features concurrent build under 1/2/3/8 threads",
+                       "twiddles) = fft_in_place, scalar AND [[B;N]] row instance; Segment::new_with_buffer concurrent branch = serial branch; the "
+                       "concurrent wrappers satisfy the serial specifications; checked every run: extracted models vs the --features concurrent "
+                       "build under 1/2/3/8 threads",
         "generated": "permute_index is translated by rs2v from the source on every run; theorem: model = generated term for every size <= 2^63; "
                      "the driver evaluates the generated term on every permute_index case",
     }
